@@ -11,7 +11,9 @@ parentheses like `Equation.Append` except that the arguments of `match`/`search`
 * `sitem_parenS` — the template of `e.parenS` prints identically;
 * `pd_parenS`, `readable_parenS`, `reduceGroups_parenS`, `normL_build_parenS` — as for `Eqn.paren`;
 * `roundTripsScript_okS`, `roundTripsFilter_okS` — C14 for `Script.String`/`Filter.String`, all equations
-  over `Not`, the 19 binary constructors and simple constants. -/
+  of the class `Eqn.okS` (`Not`, the 19 binary constructors, `length`/`count` of a path, constants in the
+  reader's form including path leaves). `Equation.Script` turns a bare path into `path exists true`
+  (`Eqn.scriptEqn`, `script_okS`); every other equation of the class has `script = build`. -/
 namespace OjgVerif.JPText
 open OjgVerif
 
@@ -25,26 +27,69 @@ def Eqn.parenS : Eqn → Eqn
 
 /-! ## S0: `Equation.Script` is the plain template unless a path is in the first position -/
 
-theorem script_of (e : Eqn) (h0 : ∀ x, e ≠ .val (.expr x)) (h1 : ∀ o x, e ≠ .un o (.val (.expr x)))
-    (h2 : ∀ o x r, e ≠ .bin o (.val (.expr x)) r) : e.script = e.build := by
+theorem script_of (e : Eqn) (h0 : ∀ x, e ≠ .val (.expr x))
+    (h1 : ∀ o x, e = .un o (.val (.expr x)) → isCode o Gen.JpOps.op_get = false)
+    (h2 : ∀ o x r, e = .bin o (.val (.expr x)) r → isCode o Gen.JpOps.op_get = false) : e.script = e.build := by
   unfold Eqn.script
   split
   · exact absurd rfl (h0 _)
-  · exact absurd rfl (h1 _ _)
-  · exact absurd rfl (h2 _ _ _)
+  · simp [h1 _ _ rfl]
+  · simp [h2 _ _ _ rfl]
   · rfl
 
-theorem script_okS (e : Eqn) (h : e.okS = true) : e.script = e.build := by
-  apply script_of
-  · intro x hx; subst hx; simp [Eqn.okS, Val.simple] at h
-  · intro o x hx; subst hx; simp [Eqn.okS, Val.simple] at h
-  · intro o x r hx; subst hx; simp [Eqn.okS, Val.simple] at h
+/-- the equation whose plain template `Equation.Script` returns: `path exists true` for a bare path -/
+def Eqn.scriptEqn : Eqn → Eqn
+  | .val (.expr x) => .bin Gen.JpOps.op_exists (.val (.expr x)) (.val (.bool true))
+  | e => e
 
-theorem script_readable (e : Eqn) (h : e.readable = true) : e.script = e.build := by
-  apply script_of
-  · intro x hx; subst hx; simp [Eqn.readable, Val.simple] at h
-  · intro o x hx; subst hx; simp [Eqn.readable, Val.simple] at h
-  · intro o x r hx; subst hx; simp [Eqn.readable, Val.simple] at h
+theorem s_exists_facts : binOps.contains Gen.JpOps.op_exists = true ∧ isCode Gen.JpOps.op_exists Gen.JpOps.op_get = false := by
+  decide
+
+theorem okS_scriptEqn (e : Eqn) (h : e.okS = true) : e.scriptEqn.okS = true := by
+  cases e with
+  | val v =>
+    cases v with
+    | expr x =>
+      have hx : pathLeaf x = true := h
+      simp only [Eqn.scriptEqn, Eqn.okS, s_exists_facts.1, Bool.true_and, Bool.and_eq_true]
+      exact ⟨hx, rfl⟩
+    | _ => exact h
+  | un o l => exact h
+  | bin o l r => exact h
+
+/-- `Equation.Script` of an equation of the class (a bare path becomes `path exists true`) -/
+theorem script_okS (e : Eqn) (h : e.okS = true) : e.script = e.scriptEqn.build := by
+  cases e with
+  | val v => cases v <;> rfl
+  | un o l =>
+    apply script_of
+    · intro x hx; cases hx
+    · intro o' x hx
+      cases hx
+      rcases okS_un_cases h with ⟨ho, _⟩ | ⟨ho, _⟩
+      · subst ho; decide
+      · exact (len_facts _ ho).2.1
+    · intro o' x r hx; cases hx
+  | bin o l r =>
+    simp only [Eqn.okS, Bool.and_eq_true] at h
+    apply script_of
+    · intro x hx; cases hx
+    · intro o' x hx; cases hx
+    · intro o' x r' hx
+      cases hx
+      exact (binOps_fact h.1).2.2.2.2.2.1
+
+theorem script_readable (e : Eqn) (h : e.readable = true) (h0 : ∀ x, e ≠ .val (.expr x)) : e.script = e.build := by
+  apply script_of _ h0
+  · intro o x hx; subst hx
+    simp only [Eqn.readable, Bool.or_eq_true, Bool.and_eq_true, beq_iff_eq] at h
+    rcases h with (h | h) | h
+    · rw [h.1]; decide
+    · rw [h.1]; decide
+    · exact (len_facts _ h.1).2.1
+  · intro o x r hx; subst hx
+    simp only [Eqn.readable, Bool.and_eq_true] at h
+    exact (binOps_fact h.1).2.2.2.2.2.1
 
 /-! ## S1: the stack machine pushes one element per tree -/
 
@@ -54,10 +99,10 @@ def sitem : Eqn → SItem
   | .un o l => .pb o.prec (appendOp o (some (sitem l)) none)
   | .bin o l r => .pb o.prec (appendOp o (some (sitem l)) (some (sitem r)))
 
-/-- trees over `!`, `group` and the 19 binary operators (any constants) -/
+/-- trees over `!`, `group`, `length`, `count` and the 19 binary operators (any constants) -/
 def Eqn.mach : Eqn → Bool
   | .val _ => true
-  | .un o l => (o == Gen.JpOps.op_not || o == Gen.JpOps.op_group) && l.mach
+  | .un o l => (o == Gen.JpOps.op_not || o == Gen.JpOps.op_group || o == Gen.JpOps.op_length || o == Gen.JpOps.op_count) && l.mach
   | .bin o l r => binOps.contains o && (l.mach && r.mach)
 
 theorem un_facts : isCode Gen.JpOps.op_not Gen.JpOps.op_get = false ∧ isCode Gen.JpOps.op_group Gen.JpOps.op_get = false ∧
@@ -73,8 +118,13 @@ theorem run_build : ∀ (G : Eqn), G.mach = true → ∀ rest : List Item,
     intro h rest
     simp only [Eqn.mach, Bool.and_eq_true, Bool.or_eq_true, beq_iff_eq] at h
     obtain ⟨ho, hl⟩ := h
-    rcases ho with ho | ho <;> subst ho <;>
-      simp [Eqn.build, un_facts, not_facts, Item.run, stepOp, ih hl, sitem, appendOp]
+    rcases ho with ((ho | ho) | ho) | ho
+    · subst ho; simp [Eqn.build, un_facts, not_facts, Item.run, stepOp, ih hl, sitem, appendOp]
+    · subst ho; simp [Eqn.build, un_facts, not_facts, Item.run, stepOp, ih hl, sitem, appendOp]
+    · have lf := len_facts o (Or.inl ho)
+      simp [Eqn.build, lf.1, lf.2.1, lf.2.2.1, lf.2.2.2.1, lf.2.2.2.2.2.2.2.2, Item.run, stepOp, ih hl, sitem, appendOp]
+    · have lf := len_facts o (Or.inr ho)
+      simp [Eqn.build, lf.1, lf.2.1, lf.2.2.1, lf.2.2.2.1, lf.2.2.2.2.2.2.2.2, Item.run, stepOp, ih hl, sitem, appendOp]
   | bin o l r ihl ihr =>
     intro h rest
     simp only [Eqn.mach, Bool.and_eq_true] at h
@@ -125,8 +175,9 @@ theorem isInfix_topPrec (e : Eqn) (h : e.okS = true) : e.isInfix = decide (0 < t
   cases e with
   | val v => rfl
   | un o l =>
-    simp only [Eqn.okS, Bool.and_eq_true, beq_iff_eq] at h
-    simp [topPrec, Eqn.op?, h.1, not_facts]
+    rcases okS_un_cases h with h | ⟨h, _⟩
+    · simp [topPrec, Eqn.op?, h.1, not_facts]
+    · simp [topPrec, Eqn.op?, (len_facts o h).2.2.2.2.1]
   | bin o l r =>
     simp only [Eqn.okS, Bool.and_eq_true] at h
     have hb := binOps_fact h.1
@@ -147,6 +198,9 @@ theorem op_parenS (e : Eqn) : e.parenS.op? = e.op? := by
   | val v => rfl
   | un o l => rfl
   | bin o l r => simp only [Eqn.parenS]; split <;> rfl
+
+theorem parenS_path (o : Op) (v : Val) : (Eqn.un o (.val v)).parenS = .un o (.val v) := by
+  simp [Eqn.parenS, grp, Eqn.isInfix, Eqn.infixPrec?]
 
 theorem topPrec_parenS (e : Eqn) : topPrec e.parenS = topPrec e := by simp [topPrec, op_parenS]
 theorem topPrec_paren (e : Eqn) : topPrec e.paren = topPrec e := by simp [topPrec, op_paren]
@@ -172,11 +226,13 @@ theorem bytes_sitem : ∀ e : Eqn, e.okS = true → (sitem e).bytes = e.parenS.t
   | val v => intro _; rfl
   | un o l ih =>
     intro h
-    simp only [Eqn.okS, Bool.and_eq_true, beq_iff_eq] at h
-    obtain ⟨ho, hl⟩ := h
+    rcases (okS_un_cases h).symm with ⟨ho, x, hx, hpx⟩ | ⟨ho, hl⟩
+    · subst hx
+      have lf := len_facts o ho
+      simp [parenS_path, sitem, bytes_pb, appendOp, lf.1, lf.2.2.1, lf.2.2.2.1, SItem.app, Eqn.text]
     subst ho
     simp only [sitem, bytes_pb, appendOp, not_facts, if_true, app_some, prec_sitem, ih hl, Eqn.parenS, Eqn.text,
-      Bool.false_eq_true, if_false, text_grp, isInfix_topPrec l hl]
+      Bool.false_eq_true, if_false, text_grp, isInfix_topPrec l hl, Bool.or_self]
   | bin o l r ihl ihr =>
     intro h
     simp only [Eqn.okS, Bool.and_eq_true] at h
@@ -226,8 +282,9 @@ theorem sitem_parenS : ∀ e : Eqn, e.okS = true → sitem e.parenS = sitem e :=
   | val v => intro _; rfl
   | un o l ih =>
     intro h
-    simp only [Eqn.okS, Bool.and_eq_true, beq_iff_eq] at h
-    obtain ⟨ho, hl⟩ := h
+    rcases (okS_un_cases h).symm with ⟨ho, x, hx, hpx⟩ | ⟨ho, hl⟩
+    · subst hx
+      rw [parenS_path]
     subst ho
     have := app_grp 0 l.isInfix l.parenS (by
       intro hq; rw [isInfix_topPrec l hl] at hq; rw [ih hl, prec_sitem]; simpa using hq)
@@ -264,7 +321,9 @@ theorem pd_parenS : ∀ e : Eqn, e.okS = true → e.parenS.pd = true := by
   | val v => intro _; rfl
   | un o l ih =>
     intro h
-    simp only [Eqn.okS, Bool.and_eq_true, beq_iff_eq] at h
+    rcases (okS_un_cases h).symm with ⟨ho, x, hx, hpx⟩ | h
+    · subst hx
+      simp [parenS_path, Eqn.pd, (len_facts o ho).2.2.2.2.1]
     simp [Eqn.parenS, Eqn.pd, h.1, not_facts, pd_grp _ _ (ih h.2)]
   | bin o l r ihl ihr =>
     intro h
@@ -299,10 +358,14 @@ theorem readable_parenS : ∀ e : Eqn, e.okS = true → e.parenS.readable = true
   | val v => intro h; exact h
   | un o l ih =>
     intro h
-    simp only [Eqn.okS, Bool.and_eq_true, beq_iff_eq] at h
+    rcases (okS_un_cases h).symm with ⟨ho, x, hx, hpx⟩ | h
+    · subst hx
+      simp only [parenS_path, Eqn.readable, Bool.or_eq_true, Bool.and_eq_true, beq_iff_eq]
+      right
+      exact ⟨ho, hpx⟩
     simp only [Eqn.parenS, Eqn.readable, h.1, beq_self_eq_true, Bool.true_and, readable_grp _ _ (ih h.2), Bool.and_true,
       Bool.or_eq_true]
-    left
+    left; left
     cases hi : l.isInfix
     · simpa [grp] using isAtom_parenS l h.2 hi
     · simp [grp, Eqn.isAtom]
@@ -318,8 +381,9 @@ theorem reduceGroups_parenS : ∀ e : Eqn, e.okS = true → ∀ po, reduceGroups
   | val v => intro _ po; rfl
   | un o l ih =>
     intro h po
-    simp only [Eqn.okS, Bool.and_eq_true, beq_iff_eq] at h
-    obtain ⟨ho, hl⟩ := h
+    rcases (okS_un_cases h).symm with ⟨ho, x, hx, hpx⟩ | ⟨ho, hl⟩
+    · subst hx
+      simp [parenS_path, reduceGroups, dropGroup, (len_facts o ho).2.2.1]
     subst ho
     simp only [Eqn.parenS, reduceGroups, dropGroup, not_facts, Bool.false_and, Bool.false_eq_true, if_false]
     rw [reduceGroups_grp _ _ _ (ih hl) (by intro _; simp [not_facts])]
@@ -348,8 +412,9 @@ theorem normL_build_parenS : ∀ e : Eqn, e.okS = true → Item.normL e.parenS.b
   | val v => intro _; rfl
   | un o l ih =>
     intro h
-    simp only [Eqn.okS, Bool.and_eq_true, beq_iff_eq] at h
-    obtain ⟨ho, hl⟩ := h
+    rcases (okS_un_cases h).symm with ⟨ho, x, hx, hpx⟩ | ⟨ho, hl⟩
+    · subst hx
+      rw [parenS_path]
     subst ho
     simp [Eqn.parenS, Eqn.build, un_facts, not_facts, Item.normL, normL_build_grp, ih hl]
   | bin o l r ihl ihr =>
@@ -373,7 +438,9 @@ theorem mach_okS : ∀ e : Eqn, e.okS = true → e.mach = true := by
   | val v => intro _; rfl
   | un o l ih =>
     intro h
-    simp only [Eqn.okS, Bool.and_eq_true, beq_iff_eq] at h
+    rcases (okS_un_cases h).symm with ⟨ho, x, hx, hpx⟩ | h
+    · subst hx
+      rcases ho with ho | ho <;> subst ho <;> simp [Eqn.mach]
     simp [Eqn.mach, h.1, ih h.2]
   | bin o l r ihl ihr =>
     intro h
@@ -386,7 +453,9 @@ theorem mach_parenS : ∀ e : Eqn, e.okS = true → e.parenS.mach = true := by
   | val v => intro _; rfl
   | un o l ih =>
     intro h
-    simp only [Eqn.okS, Bool.and_eq_true, beq_iff_eq] at h
+    rcases (okS_un_cases h).symm with ⟨ho, x, hx, hpx⟩ | h
+    · subst hx
+      rcases ho with ho | ho <;> subst ho <;> simp [parenS_path, Eqn.mach]
     simp [Eqn.parenS, Eqn.mach, h.1, mach_grp _ _ (ih h.2)]
   | bin o l r ihl ihr =>
     intro h
@@ -417,12 +486,26 @@ theorem parseEquation_scriptPrint (e : Eqn) (h : e.okS = true) :
     (by simp [Eqn.readable, readable_parenS e h]) (by simp [Eqn.pd, not_facts, pd_parenS e h])]
   simp only [reduceGroups, dropGroup, not_facts, Bool.true_and, if_true, reduceGroups_parenS e h]
 
-/-- **`NewScript(e.Script().String())`** is the template of `e` with a `group` operator where the text has a
-parenthesis (but the outermost) -/
+theorem s_parenS_scriptEqn_ne (e : Eqn) : ∀ x, e.scriptEqn.parenS ≠ .val (.expr x) := by
+  intro x
+  cases e with
+  | val v => cases v <;> simp [Eqn.scriptEqn, Eqn.parenS] <;> split <;> simp
+  | un o l => simp [Eqn.scriptEqn, Eqn.parenS]
+  | bin o l r => simp only [Eqn.scriptEqn, Eqn.parenS]; split <;> simp
+
+/-- **`NewScript(e.Script().String())`** is the template of `e` (of `path exists true` for a bare path `e`, as
+`Equation.Script` builds it) with a `group` operator where the text has a parenthesis (but the outermost) -/
 theorem parseScript_print (e : Eqn) (h : e.okS = true) :
-    parseScript (scriptPrint e.script) = some e.parenS.build := by
-  rw [script_okS e h, parseScript, parseEquation_scriptPrint e h, Option.map_some,
-    script_readable _ (readable_parenS e h)]
+    parseScript (scriptPrint e.script) = some e.scriptEqn.parenS.build := by
+  rw [script_okS e h, parseScript, parseEquation_scriptPrint _ (okS_scriptEqn e h), Option.map_some,
+    script_readable _ (readable_parenS _ (okS_scriptEqn e h)) (s_parenS_scriptEqn_ne e)]
+
+/-- `scriptEqn` changes a bare path only -/
+theorem s_scriptEqn_self (e : Eqn) (h0 : ∀ x, e ≠ .val (.expr x)) : e.scriptEqn = e := by
+  unfold Eqn.scriptEqn
+  split
+  · exact absurd rfl (h0 _)
+  · rfl
 
 theorem parseFilter_brackets (s : Bytes) (hs : s ≠ []) :
     parseFilter (91 :: 63 :: (s ++ [93])) = (parseEquation s).map Eqn.build := by
@@ -439,10 +522,11 @@ theorem parseFilter_print (e : Eqn) (h : e.okS = true) :
 
 theorem roundTripsScript_okS (e : Eqn) (h : e.okS = true) : roundTripsScript e = true := by
   have h1 := parseScript_print e h
+  have h2 := okS_scriptEqn e h
   simp only [roundTripsScript, h1]
-  rw [script_okS e h, scriptPrint_parenS e h]
+  rw [script_okS e h, scriptPrint_parenS _ h2]
   simp only [beq_self_eq_true, Bool.true_and]
-  exact sameTemplate_of_normL (normL_build_parenS e h)
+  exact sameTemplate_of_normL (normL_build_parenS _ h2)
 
 theorem roundTripsFilter_okS (e : Eqn) (h : e.okS = true) : roundTripsFilter e = true := by
   have h1 := parseFilter_print e h
